@@ -39,6 +39,8 @@ CORPUS = [
     ("C16-N03b", "", "#include <abc\n"),
     ("C16-N04a", "", "int x = (double) 1;\n"),
     ("C16-N04b", "", "@kernel void k(float *a) {\n  for (int i = 0; i < 4; ++i; @tile(2, @outer, @inner)) {\n    a[i] = (double) i;\n  }\n}\n"),
+    ("C16-N05a", "", "#if)\n"),
+    ("C16-N05b", "", "#if 1 ]\n#endif\n"),
     ("C16-N06", "", "#define H(x) # y\nH(1)\n"),
     ("C16-N07", "", "int a;\n#ifndef\nint b;\n#endif\n"),
     ("C16-N08", "", "@kernel void k(const int N, float *a) {\n  for (int i = 0; i < N; ++i; @tile(16, @outer, @inner)) {\n    a[i] = OCCA_USING_GPU OCCA_USING_GPU\n  }\n}\n"),
